@@ -71,6 +71,8 @@ def lockset_units(prop):
 
 #: which unit families each property draws on
 FAMILIES = {
+    "C02": ["own", "class", "subscribe"],
+    "C03": ["own", "class", "subscribe"],
     "C43": ["lockset"],
     "C42": ["catchsched"],
     "C09": ["guard"],
@@ -123,6 +125,8 @@ def units_for(prop, tier):
         us.append({"runner": "replay", "prop": prop, "id": "reactivex/subject/replaysubject.py::ReplaySubject"})
     if "timedextra" in fams:
         us.append({"runner": "timedextra", "prop": prop, "id": f"timed-operators-not-under-contract/{prop}"})
+    if "own" in fams:
+        us.append({"runner": "own", "prop": prop, "id": f"ownership-conditions/{prop}"})
     if "seqlemma" in fams:
         us.append({"runner": "seqlemma", "prop": prop, "id": "specs/c17q.py::queue-functions"})
     if "mcast" in fams:
